@@ -5,6 +5,7 @@ import Switcher.Model.Wire
 import Switcher.Model.Tools
 import Switcher.Model.Device
 import Switcher.Model.Sched
+import Switcher.Model.Api
 open Spec Wire Model
 
 def showPyText : Py (List Char) → String
@@ -16,6 +17,61 @@ def showNats (l : List Nat) : String := if l.isEmpty then "-" else ",".intercala
 def showPyHex : Py (List Char) → String
   | .ok cs => "ok " ++ String.ofList cs
   | .error e => "raise " ++ e.name
+
+def optTok (s : String) : Option String := if s == "-" then none else some s
+
+def tenths (n : Nat) : String := s!"{n / 10}.{n % 10}"
+
+def showResp : Py Resp → String
+  | .error e => "raise " ++ e.name
+  | .ok (.base raw) => "base " ++ (if successful raw then "1" else "0")
+  | .ok (.state _ r) => s!"state {r.state} {String.ofList r.timeLeft} {String.ofList r.timeOn} {String.ofList r.autoShutdown} {r.power} {tenths r.ampsTenths}"
+  | .ok (.thermo _ r) => s!"thermo {r.state} {r.mode} {r.fan} {tenths r.tempTenths} {r.target} {r.swing} {encText r.remoteId}"
+  | .ok (.shutter _ r) => s!"shutter {r.position} {r.direction}"
+  | .ok (.schedules raw) => "schedules " ++ hexOfBytes raw
+
+/-- `ir=<u:id>,<onofftype>,<u:key>/<u:para>/<u:hex>,…` -/
+def parseIrSet (tok : String) : Option IrSet := do
+  let body := (tok.drop 3).toString
+  match body.splitOn "," with
+  | idT :: onT :: waves =>
+    let id ← text? idT
+    let on ← int? onT
+    let ws ← waves.mapM (fun w => match w.splitOn "/" with
+      | [k, p, h] => do pure { key := ← text? k, para := ← text? p, hexCode := ← text? h : Wave }
+      | _ => none)
+    pure { id, onOffType := on, waves := ws }
+  | _ => none
+
+def parseReq : List String → Option Req
+  | ["getState"] => some .getState
+  | ["control", on, m] => do pure (.controlDevice (on == "1") (← int? m))
+  | ["autoshutdown", us] => do pure (.setAutoShutdown (← int? us))
+  | ["setname", n] => do pure (.setDeviceName (← text? n))
+  | ["getschedules"] => some .getSchedules
+  | ["delsched", i] => do pure (.deleteSchedule (← text? i))
+  | ["createsched", a, b, d] => do pure (.createSchedule (← text? a) (← text? b) (csvNats d))
+  | ["stop"] => some .stop
+  | ["setpos", p] => do pure (.setPosition (← int? p))
+  | ["getshutter"] => some .getShutterState
+  | ["getbreeze"] => some .getBreezeState
+  | ["ctlbreeze", ir, st, md, tt, fan, sw, upd] => do
+    let irs ← parseIrSet ir
+    match mkRemote irs with
+    | .ok r => pure (.controlBreeze r (optTok st) (optTok md) (← int? tt) (optTok fan) (optTok sw) (upd == "1"))
+    | .error _ => none
+  | _ => none
+
+def runOpLine (toks : List String) : String :=
+  match toks with
+  | did :: key :: now :: off :: rest =>
+    let (reqToks, repToks) := rest.span (· != "|")
+    match text? did, text? key, int? now, int? off, parseReq reqToks, (repToks.drop 1).mapM bytesOfHex? with
+    | some d, some k, some n, some o, some req, some reps =>
+      let (frames, out) := runProg (prog { deviceId := d, deviceKey := k } n o req) reps
+      "frames=" ++ (if frames.isEmpty then "-" else ",".intercalate (frames.map hexOfBytes)) ++ " out=" ++ showResp out
+    | _, _, _, _, _, _ => "bad-arg"
+  | _ => "bad-arg"
 
 def drive : List String → String
   | ["sign", p] =>
@@ -43,6 +99,7 @@ def drive : List String → String
     match text? a, text? b with
     | some x, some y => showPyText (calcDuration x y)
     | _, _ => "bad-arg"
+  | "op" :: rest => runOpLine rest
   | _ => "bad-op"
 
 def main : IO Unit := do Wire.loop (← IO.getStdin) (← IO.getStdout) drive
